@@ -9,7 +9,7 @@
                       nested list; atoms are <point>/<name> <output>);
    - [sub]          = one re.sub(pattern, SATISFIED_TEMPLATE % key, expr) of
                       set_conditional_expr, with the two patterns
-                      \b<msg>\b and -\b<msg[1:]>\b, leftmost non-overlapping
+                      (?<!-)\b<msg>\b and -\b<msg[1:]>\b, leftmost non-overlapping
                       matches, \b = "exactly one neighbour is a \w char";
                       re.escape makes the message a literal;
    - [subst_all]    = the loop over self._satisfied in insertion order
@@ -79,8 +79,9 @@ Definition tmpl (k : key) : str :=
 (* does the pattern built from message [m] match at the head of [s], where
    [prev] is the character just before [s] in the subject string? *)
 Definition match_plain (m : str) (prev : option Z) (s : str) : bool :=
-  (* pattern  \b<msg>\b *)
-  bnd prev (hd_opt s) && starts_with m s
+  (* pattern  (?<!-)\b<msg>\b   (the look-behind was added by fix 0083ac1) *)
+  negb (option_eqb Z.eqb prev (Some c_minus))
+  && bnd prev (hd_opt s) && starts_with m s
   && bnd (last_opt prev m) (hd_opt (skipn (List.length m) s)).
 Definition match_neg (body : str) (s : str) : bool :=
   (* msg[0] is a minus sign:  pattern  -\b<msg[1:]>\b *)
